@@ -709,6 +709,76 @@ func c07Units(tier string) []hx.Unit {
 		}
 		units = append(units, u)
 	}
+	units = append(units, c07SlowCacheUnits()...)
+	return units
+}
+
+// slowCache answers like tableCache, ten seconds later (the root is not cached and the header has to be fetched from
+// beacon nodes that are slow); like an HTTP client it gives up when its context ends.
+type slowCache struct{}
+
+func (slowCache) BlockRootToSlot(ctx context.Context, r phase0.Root) (phase0.Slot, error) {
+	t := mtime.After(10 * time.Second)
+	if sel := mc.Select(false, mc.RecvCase(ctx.Done()), mc.RecvCase(t)); sel.Index == 0 {
+		return 0, ctx.Err()
+	}
+	return tableCache{}.BlockRootToSlot(ctx, r)
+}
+
+// The majority strategies consult the block-root-to-slot cache; a lookup that has to go to slow beacon nodes must
+// not take the strategy past its configured timeout.  Two nodes give the same value at once; the caller's context
+// has no deadline (a job's context).
+func c07SlowCacheUnits() []hx.Unit {
+	var units []hx.Unit
+	for _, which := range []string{"attestationdata/majority", "beaconblockroot/majority"} {
+		which := which
+		var ret byte
+		var rerr error
+		var t1 int64
+		var done bool
+		u := hx.Unit{Name: "C07/" + which + "/slow-block-root-lookup", Cfg: mc.Config{Horizon: int64(200 * time.Second)}, Bound: 0}
+		u.Body = func() {
+			ret, rerr, t1, done = 0, nil, 0, false
+			e := &c07Env{nodes: []c07Node{{kind: 'A', lat: 0}, {kind: 'A', lat: 0}}, threshold: 2, arrive: []int64{-1, -1}, called: make([]int, 2)}
+			mon := &nullmetrics.Service{}
+			bg := context.Background()
+			t0 := mc.Now()
+			if which == "attestationdata/majority" {
+				s, err := admajority.New(bg, admajority.WithLogLevel(zerolog.Disabled), admajority.WithClientMonitor(mon), admajority.WithProcessConcurrency(1),
+					admajority.WithTimeout(c07Timeout), admajority.WithChainTime(newChainTime(0, 12*time.Second, 32)), admajority.WithBlockRootToSlotCache(slowCache{}),
+					admajority.WithThreshold(2), admajority.WithAttestationDataProviders(adProviders(e)))
+				must(err)
+				ret, rerr = adLabel(s.AttestationData(bg, &api.AttestationDataOpts{Slot: c07Slot, CommitteeIndex: 1}))
+			} else {
+				m := map[string]eth2client.BeaconBlockRootProvider{}
+				for i, n := range names(len(e.nodes)) {
+					m[n] = brProv{e, i}
+				}
+				s, err := brmajority.New(bg, brmajority.WithLogLevel(zerolog.Disabled), brmajority.WithClientMonitor(mon), brmajority.WithProcessConcurrency(1),
+					brmajority.WithTimeout(c07Timeout), brmajority.WithBlockRootToSlotCache(slowCache{}), brmajority.WithBeaconBlockRootProviders(m))
+				must(err)
+				ret, rerr = brLabel(s.BeaconBlockRoot(bg, &api.BeaconBlockRootOpts{Block: "head"}))
+			}
+			t1 = mc.Now() - t0
+			done = true
+		}
+		u.Check = func(r *mc.Result) mc.Verdict {
+			v := mc.Verdict{Outcome: which + " slow lookup", Nontrivial: true,
+				Sample: fmt.Sprintf("%s, two nodes give A at once, every block-root lookup takes 10 s, timeout %v: returned %q (error %v) after %v", which, c07Timeout, string(ret), rerr, time.Duration(t1))}
+			switch {
+			case r.Panic != "":
+				v.Violation, v.Key = v.Sample+": panic: "+firstLine(r.Panic), "C07/"+which+"/panic"
+			case !done:
+				v.Violation, v.Key = v.Sample+": the call never returned", "C07/"+which+"/never-returned"
+			case t1 > int64(c07Timeout):
+				v.Violation, v.Key = v.Sample+": returned after the configured timeout", "C07/"+which+"/returned-after-timeout"
+			case rerr != nil || ret != 'A':
+				v.Violation, v.Key = v.Sample+": the value both nodes gave was not returned", "C07/"+which+"/error-despite-acceptable-response"
+			}
+			return v
+		}
+		units = append(units, u)
+	}
 	return units
 }
 
